@@ -18,7 +18,8 @@ def gen_trial(rng, profile):
         eph = 0 if rng.random() < (0.85 if bal else 0.6) else rng.choice([1, 1, 2])
         clients.append({'cid': CIDS[c], 'uid': f'u{c}', 'eph': eph, 'out': rng.randrange(nout), 'prev': -1, 'seen': rng.random() < 0.3})
     required = [c['cid'] for c in clients if c['eph'] == 0 and rng.random() < 0.4]
-    if rng.random() < 0.1: required.append('Z')          # a required output that never shows up
+    if profile == 'sync0': required = []                  # C05 paired runs: internal id counter, nothing required (props/c05.py paired_oracle)
+    elif rng.random() < 0.1: required.append('Z')          # a required output that never shows up
     ops = []
     t = 1000
     body = [0]
@@ -52,7 +53,7 @@ def gen_trial(rng, profile):
         pk = rng.random()
         payload = {'k': 'topics', 'ts': ts} if pk < 0.75 else {'k': 'deferred', 'ts': ts} if pk < 0.92 else {'k': 'deferred', 'ts': None}
         sk = rng.random()
-        if sk < 0.5: state = None
+        if sk < 0.5 or profile == 'sync0': state = None
         else:
             msg_id_src += rng.choice([0, 1, 1, 1, 2])
             state = [msg_id_src if rng.random() < 0.9 else max(0, msg_id_src - 2), rng.choice([0, 0, 0, 1, 2])]
